@@ -135,11 +135,13 @@ def main(tier):
     jobs += [(job_drift_field, (n, nb, q, p)) for n, nb in ns for q, p in grids]
     jobs += [(job_first_moment, (n, it, ax, r, 1, 3)) for n in (10, 9) for it in (2, 3, 4) for ax in (0, 1) for r in ((2, n - 3) if tier == 'quick' else range(n))]
     jobs += [(job_rotation_algebra, ())]
+    import mainparams
+    jobs += [(mainparams.job_map_parameters, ('C03',))]      # O5: what main hands to the maps - angle * steps == 2*pi, slip factors
     chk.bounds = {'fields': 'constructors run from IR with symbolic angle in (0,1/2) / voltages / f_RF / slip factors / E0; grids %s with axis ranges %s (zero bin on, between and off-centre cells)' % (ns, grids),
                   'first moment': 'grids 10 and 9 (even and odd), |off| <= 1 (integer part case-split), unit charge at every interior cell + linearity obligation, 2-4 interpolation points',
                   'rotation': 'algebra over the extracted linear fields, a in (0,1/2]; one step, inductive; the product over a full period is not iterated'}
     chk.assumptions = ['tanf/sinf/asinf: uninterpreted functions (same symbol in code and specification); a < tan a < a + a^3 and the Taylor enclosure of cos are standard facts assumed for a in (0,1/2]',
-                       'updateSM stubbed during the constructor runs (the table is a function of the displacement field: C01/C02)', 'equal cell sizes in q and p (as main constructs the grid); angle = 2*pi/steps and slip factors in main are a tier-2 obligation',
+                       'updateSM stubbed during the constructor runs (the table is a function of the displacement field: C01/C02)', 'equal cell sizes in q and p (as main constructs the grid); angle = 2*pi/steps and the slip factors main builds are decided from the set-up slice of main extended to the map constructions (steps: the value main divides 2*pi by; the dynamic linear route is executed, the static one receives the same operand)',
                        'small-amplitude equivalence of the sinusoidal bucket, interpolation error for 1-point interpolation and the float product over a whole period are outside the claim']
     chk.stubs = ['updateSM no-op (constructor runs)', 'libm as uninterpreted functions', 'operator new/delete']
     chk.replayer = replayer(bld)
